@@ -94,6 +94,17 @@ def native_playback(crate_dir, test_name, release, logfile, timeout=1200):
     return {"rc": rc, "ran": nran, "failed": failed and nran > 0, "passed": passed and not failed, "tail": "\n".join(text.splitlines()[-25:])}
 
 
+def qualify_playback(h, test_src):
+    """harnesses generated inside a sub-module of the harness file (`harness::k_native::u8x32`): the
+    playback test is appended at the top level of that file, so the call needs the module path"""
+    q = getattr(h, "qname", None) or ""
+    parts = q.split("::")
+    if len(parts) >= 3 and parts[0] == "harness":
+        leaf, rel = parts[-1], "::".join(parts[1:])
+        test_src = test_src.replace("concrete_playback_run(concrete_vals, %s)" % leaf, "concrete_playback_run(concrete_vals, %s)" % rel)
+    return test_src
+
+
 def replay_counterexample(h, r, scratch, prop, logdir):
     """Returns dict(reproduced, ub_only, path, detail)."""
     out_dir = os.path.join(VERIF, "replays")
@@ -123,6 +134,7 @@ def replay_counterexample(h, r, scratch, prop, logdir):
         rec["ub_only"] = False
         json.dump(rec, open(path, "w"), indent=1)
         return {"reproduced": False, "ub_only": False, "path": path, "detail": rec["detail"]}
+    test_src = qualify_playback(h, test_src)
     rec["playback_test"] = test_src
     rec["playback_test_name"] = test_name
     # 2. compile it natively next to the harness and run it (dev, then release)
